@@ -165,6 +165,12 @@ func validateTextAfterStartAction(c context, text string) error {
 	if !c.attr.dynamicStart || text == "" {
 		return nil
 	}
+	// After a conditional, the recorded value is the text that one of the branches wrote; another
+	// branch may have written nothing. The text must then be acceptable directly after the action.
+	prefix := c.attr.value
+	if c.attr.ambiguousValue {
+		prefix = ""
+	}
 	elems, attrs := c.element.names, c.attr.names
 	if len(elems) == 0 {
 		elems = []string{c.element.name}
@@ -185,8 +191,8 @@ func validateTextAfterStartAction(c context, text string) error {
 			if sc != sanitizationContextURL && sc != sanitizationContextTrustedResourceURLOrURL {
 				continue
 			}
-			if colonInFirstSegmentPattern.MatchString(html.UnescapeString(c.attr.value + text)) {
-				return fmt.Errorf("text %q after an action at the start of the %q URL attribute value of a %q element is unsafe; it might be interpreted as part of a scheme", c.attr.value+text, attr, elem)
+			if colonInFirstSegmentPattern.MatchString(html.UnescapeString(prefix + text)) {
+				return fmt.Errorf("text %q after an action at the start of the %q URL attribute value of a %q element is unsafe; it might be interpreted as part of a scheme", prefix+text, attr, elem)
 			}
 		}
 	}
